@@ -426,10 +426,9 @@ func (h *RequestHeader) AppendBytes(dst []byte) []byte {
 	// they all are located in h.h.
 	n := len(h.cookies)
 	if n > 0 {
-		dst = append(dst, bytestr.StrCookie...)
-		dst = append(dst, bytestr.StrColonSpace...)
-		dst = appendRequestCookieBytes(dst, h.cookies)
-		dst = append(dst, bytestr.StrCRLF...)
+		// like every other field: CR and LF in cookie names and values must not
+		// reach the wire as line breaks
+		dst = appendHeaderLine(dst, bytestr.StrCookie, appendRequestCookieBytes(nil, h.cookies))
 	}
 
 	if h.ConnectionClose() {
